@@ -60,6 +60,16 @@ type SpecialStats struct {
 	Wall        float64                `json:"wall_s"`
 }
 
+// outDir is where evidence / replay files go: under /verif, except when a development aid
+// (tools/try_seed.sh, which checks a scratch copy of the repository) redirects them so that the
+// committed evidence is only ever written by runs against /repo itself.
+func outDir(root, name string) string {
+	if d := os.Getenv("VERIF_OUT_DIR"); d != "" {
+		return filepath.Join(d, name)
+	}
+	return filepath.Join(root, name)
+}
+
 func envSeed() int64 {
 	if s := os.Getenv("VERIF_SEED"); s != "" {
 		if v, err := strconv.ParseInt(s, 10, 64); err == nil {
@@ -252,8 +262,8 @@ func firstLines(s string, n int) string {
 // file and returns the exit code.
 func (rep *Report) finish(def *propDef) int {
 	root := verifRoot()
-	os.MkdirAll(filepath.Join(root, "replays"), 0o755)
-	os.MkdirAll(filepath.Join(root, "evidence"), 0o755)
+	os.MkdirAll(outDir(root, "replays"), 0o755)
+	os.MkdirAll(outDir(root, "evidence"), 0o755)
 	known := loadKnown()
 	violations := 0
 	printed := map[string]bool{}
@@ -270,7 +280,7 @@ func (rep *Report) finish(def *propDef) int {
 		}
 		b, _ := json.MarshalIndent(f, "", " ")
 		sum := sha1.Sum(b)
-		path := filepath.Join(root, "replays", fmt.Sprintf("%s-%x.json", rep.Prop, sum[:6]))
+		path := filepath.Join(outDir(root, "replays"), fmt.Sprintf("%s-%x.json", rep.Prop, sum[:6]))
 		os.WriteFile(path, b, 0o644)
 		// confirm in a fresh process before reporting
 		cmd := exec.Command(self, "replay", path)
@@ -385,7 +395,7 @@ func (rep *Report) writeEvidence(def *propDef, violations int) {
 		"violations": violations,
 	}
 	b, _ := json.MarshalIndent(ev, "", " ")
-	os.WriteFile(filepath.Join(verifRoot(), "evidence", rep.Prop+".json"), b, 0o644)
+	os.WriteFile(filepath.Join(outDir(verifRoot(), "evidence"), rep.Prop+".json"), b, 0o644)
 }
 
 // histories of the cover stages are behaviours of the specification replayed on the
